@@ -457,7 +457,9 @@ func execC15FanOut(c *child.Ctx, k detCase, cj []byte, pool [][]byte, cn [][2]ca
 							c.Violate("panic", fmt.Sprintf("panic in a fan-out consumer: %v", rr), cj)
 						}
 					}()
-					checkAgainstCanon(c, cj, &cn[idx[j]], idx[j], li, &cp, fmt.Sprintf("fan-out consumer %d (level %v), message %d", ci, detLevels[li], j))
+					// decode the way the applications' consumers do: lazily, through the display path
+					handler.PrepareForDisplay(&cp)
+					checkAgainstCanonX(c, cj, &cn[idx[j]], idx[j], li, &cp, fmt.Sprintf("fan-out consumer %d (level %v), message %d", ci, detLevels[li], j), true)
 					if ci == 0 {
 						scribble(cp.Readable)
 					}
